@@ -26,7 +26,15 @@ C07v(o) ==
   ELSE IF ~o.acc_released \/ o.acc_aborted THEN "C07_NotReleased"
   ELSE IF o.acc_alive THEN "C07_ThreadLeft"
   ELSE "ok"
+\* C26 (intervention handlers): o.raises - the handler's generator raised at the arrival point, with the peer's release request
+\* pending; the operation still ends with the documented failure status (C-FIND C311H, C-GET C411H, C-MOVE C511H), seen by the peer
+FailureOf(svc) == CASE svc = "find" -> 49937 [] svc = "get" -> 50193 [] svc = "move" -> 50449 [] OTHER -> -2
+C26v(o) ==
+  IF ~o.raises THEN "ok"
+  ELSE IF ~o.reached \/ ~o.sent THEN "UNREACHED"
+  ELSE IF o.final_status # FailureOf(o.svc) THEN "C26_InterventionContained"
+  ELSE "ok"
 TInit == i = 1
-TNext == /\ i <= Len(Obs) /\ PrintT(<<"VERDICT", Obs[i].id, C07v(Obs[i])>>) /\ i' = i + 1
+TNext == /\ i <= Len(Obs) /\ PrintT(<<"VERDICT", Obs[i].id, C07v(Obs[i]), C26v(Obs[i])>>) /\ i' = i + 1
 TSpec == TInit /\ [][TNext]_i
 =============================================================================
